@@ -183,12 +183,26 @@ fn w_i32_unsigned_abs(x: i32) -> (r: u32) ensures r == (if x >= 0 { x as int } e
     rb.body_prologue("let ghost cont0 = cont@;")
     rb.insert_at(r'(?m)^\s*tuple\s*$', "    proof { assert(tuple@ =~= marshal_bytes(cont0)); }", where='before')
     unit.add(rb)
-    unit.raw("""
-// @trusted: vec![x]
-#[verifier::external_body]
-fn w_vec1(x: u8) -> (r: Vec<u8>) ensures r@ == seq![x] { vec![x] }
-} // verus!
-""")
+    # ---- writer: the code object itself (field order and presence per target version vs. CPython's marshal.c layout) --------------
+    ib = Snippet(csrc.fn('into_bytes', impl=r'CodeObj'), 'CodeObj::into_bytes')
+    rules.strip_vis_attrs(ib)
+    ib.rw('R9', r'vec!\[DataTypePrefix::Code as u8\]', 'w_vec1(DataTypePrefix::Code as u8)', expect=1)
+    ib.rw('R8', r'&mut self\.(\w+)\.to_le_bytes\(\)\.to_vec\(\)', r'&mut w_u32_le_vec(self.\1)')
+    ib.rw('R4', r'python_ver\.minor >= Some\((\d+)\)', r'w_minor_ge(python_ver.minor, \1)')
+    ib.rw('R4', r'python_ver\.minor < Some\((\d+)\)', r'!w_minor_ge(python_ver.minor, \1)')
+    ib.contract("""requires self.code@.len() <= 0xFFFF_FFFF, self.lnotab@.len() <= 0xFFFF_FFFF, self.exceptiontable@.len() <= 0xFFFF_FFFF,
+        self.filename.bytes().len() <= 0xFFFF_FFFF, self.name.bytes().len() <= 0xFFFF_FFFF, self.qualname.bytes().len() <= 0xFFFF_FFFF,
+    ensures res@ == code_layout(self, python_ver.minor),   // the fields CPython's unmarshaller expects for that version, in its order""")
+    ib.body_prologue("broadcast use vstd::seq::group_seq_axioms;")
+    ib.insert_at(r'bytes\.append\(&mut w_u32_le_vec\(self\.kwonlyargcount\)\)', "        proof { assert(bytes@ =~= layout_a(self, python_ver.minor)); }", where='before')
+    ib.insert_at(r'bytes\.append\(&mut w_u32_le_vec\(self\.stacksize\)\)', "        proof { assert(bytes@ =~= layout_b(self, python_ver.minor)); }", where='before')
+    ib.insert_at(r'Self::dump_locals\(', "        proof { assert(bytes@ =~= layout_c(self, python_ver.minor)); }", where='before')
+    ib.insert_at(r'bytes\.append\(&mut w_u32_le_vec\(self\.firstlineno\)\)', "        proof { assert(bytes@ =~= layout_d(self, python_ver.minor)); }", where='before')
+    ib.insert_at(r'(?m)^\s*bytes\s*$', "        proof { assert(bytes@ =~= code_layout(self, python_ver.minor)); }", where='before')
+    unit.raw("impl CodeObj {\n")
+    unit.add(ib)
+    unit.raw("}\n} // verus!\n")
+    run.sample({"function": "CodeObj::into_bytes", "ensures": "res == 'c' ++ the fields of CPython's marshal layout for the target version, in order (posonlyargcount from 3.8, nlocals up to 3.10, qualname and exceptiontable from 3.11); compound fields by their own writers"})
     run.sample({"function": "str_into_bytes", "ensures": "== CPython's marshal encoding of the string (short-ASCII header with length byte, or 'u' + u32 byte length) for every string below 4 GiB"})
     for fn_, what in (("take/take_byte/consume/deserialize_u32", "Ok <=> enough bytes; Ok returns exactly the next bytes and leaves the rest; Err leaves the input untouched; never panics"),
                       ("deserialize_const", "total on every byte vector (no panic, Err on short/ill-typed input), never grows the input, success consumes >= 1 byte, terminates"),
